@@ -184,6 +184,9 @@ DEFAULT_CFG = {
     'n_ext': 1,  # number of external status contexts already reported (green) on the PRs' initial heads
     'flip': (0,),  # indices of the external contexts the world may change
     'knobs': ('push', 'target', 'review', 'label'),  # which other world changes are in the alphabet
+    # None, or {'bases': ('tick','hook'), 'ks': (0, 1, ...), 'changes': ('label', 'review', 'target', 'push', 'ext')}:
+    # events "a world change lands, and its webhook is delivered, while the k-th GitHub request of a CI pass is in flight"
+    'windows': None,
 }
 
 
@@ -205,9 +208,15 @@ class World:
         self.statuses = {
             PR_SHAS[n][0]: {ext_name(k): 'success' for k in range(self.cfg['n_ext'])} for n in self.cfg['prs']
         }
-        # shas whose external statuses changed since the CI last queried the status rollup of a PR with that head:
-        # tells "the CI has not looked yet" (not-notified) from "the CI looked and still got it wrong" (ci-logic)
-        self.unpolled = []
+        # facts ('target', 'label<n>', 'head<n>', 'review<n>', 'status:<sha>') that changed since the CI last read them
+        # from GitHub -> has the CI been told since (a webhook reached notify_github_changed / it started a full update)?
+        # Tells "the CI has not looked yet" (webhook-in-flight / not-notified) from "the CI was told and did not re-read"
+        # (notified-not-refreshed) and from "the CI looked and still got it wrong" (ci-logic: the fact is not dirty).
+        self.dirty = {}
+        # per-transition scratch for the mid-pass window
+        self.window = None  # (k, world change) armed for the k-th GitHub request of the running CI pass
+        self.req = 0  # GitHub requests answered so far in the running CI pass
+        self.changed_in_pass = []  # facts changed by a window inside the running pass
         self.batches = []  # the batch service's table
         self.hooks = []  # undelivered GitHub webhooks, a sorted set of (kind, pr)
         self.callbacks = []  # undelivered batch callbacks (batch ids, FIFO)
@@ -232,12 +241,12 @@ class World:
             {n: dict(p, labels=list(p['labels'])) for n, p in self.prs.items()},
             {sha: dict(d) for sha, d in self.statuses.items()},
             [dict(b) for b in self.batches], list(self.hooks), list(self.callbacks), list(self.merges),
-            list(self.unpolled),
+            dict(self.dirty),
         )
 
     def restore(self, snap):
         (self.target, self.ext_moves, self.last_target_change, self.prs, self.statuses,
-         self.batches, self.hooks, self.callbacks, self.merges, self.unpolled) = snap
+         self.batches, self.hooks, self.callbacks, self.merges, self.dirty) = snap
 
     def canon(self):
         open_heads = set()
@@ -253,11 +262,31 @@ class World:
             tuple((sha, tuple(sorted(d.items()))) for sha, d in sorted(self.statuses.items()) if sha in open_heads),
             tuple((b['id'], tuple(sorted((k, v) for k, v in b['attributes'].items() if k != 'token')), b['state'])
                   for b in self.batches),
-            tuple(u for u in self.unpolled if u in open_heads),
+            tuple(sorted((f, v) for f, v in self.dirty.items() if self._fact_live(f, open_heads))),
             tuple(self.hooks), len(self.callbacks),  # every callback delivery has the same effect on the CI
             tuple(sorted(self.db['invalidated_batches'])), tuple(sorted(self.db['authorized_shas'])),
             (len(self.merges), (self.merges[-1]['pr'], self.merges[-1]['target_before']) if self.merges else None),
         )
+
+    def _fact_live(self, fact, open_heads):
+        if fact == 'target':
+            return True
+        if fact.startswith('status:'):
+            return fact[7:] in open_heads
+        n = int(fact.lstrip('abcdefghijklmnopqrstuvwxyz'))
+        return self.prs[n]['state'] == 'open'
+
+    def mark_changed(self, *facts):
+        for f in facts:
+            self.dirty[f] = False
+
+    def mark_read(self, *facts):
+        for f in facts:
+            self.dirty.pop(f, None)
+
+    def mark_notified(self):
+        for f in self.dirty:
+            self.dirty[f] = True
 
     # -- helpers
     def count(self, k, n=1):
@@ -316,37 +345,49 @@ class World:
         cpr = getattr(self.ci, 'prs', {}).get(n) if self.ci is not None else None
         found = []
 
-        def cause(stale, hook=None):
-            # ci-logic: the CI's own cached facts already forbade the merge.  Otherwise the cache is out of date:
-            # either the webhook that would have refreshed it is still undelivered, or GitHub never notifies the
-            # CI of such a change (no status / check_run handler is registered) and nothing made it re-poll.
-            if not stale:
+        def cause(stale, fact, hook=None):
+            # ci-logic: the CI's own cached facts already forbade the merge, or its cache is wrong although it has
+            # read the fact from GitHub since it last changed.  Otherwise the cache is out of date: the CI was told
+            # (webhook delivered, possibly in the middle of a pass) but merged without re-reading; or the webhook that
+            # would have told it is still undelivered; or GitHub never notifies the CI of such a change (no status /
+            # check_run handler is registered) and nothing made it re-poll.
+            if not stale or fact not in self.dirty:
                 return 'ci-logic'
+            if self.dirty[fact]:
+                return 'notified-not-refreshed'
             return 'webhook-in-flight' if hook in self.hooks else 'not-notified'
 
-        if p['review'] != 'APPROVED':
+        def excused(fact):
+            # the fact changed while this very pass was in flight, after the pass had read it: no client of GitHub's
+            # merge API (its only precondition is the head sha) can exclude that, so it is not judged
+            if fact in self.changed_in_pass:
+                self.count('clauses_excused_change_inside_merging_pass')
+                return True
+            return False
+
+        if p['review'] != 'APPROVED' and not excused(f'review{n}'):
             stale = cpr is not None and getattr(cpr, 'review_state', None) == 'approved'
             found.append((
-                f'unapproved/{cause(stale, ("pull_request_review", n))}',
+                f'unapproved/{cause(stale, f"review{n}", ("pull_request_review", n))}',
                 f'PR {n} merged while its review decision is {p["review"]} '
                 f'(CI cache: review_state={getattr(cpr, "review_state", None)!r})',
             ))
-        if self.dnm_label in p['labels']:
+        if self.dnm_label in p['labels'] and not excused(f'label{n}'):
             stale = cpr is not None and self.dnm_label not in getattr(cpr, 'labels', ())
             found.append((
-                f'do-not-merge-label/{cause(stale, ("pull_request", 0))}',
+                f'do-not-merge-label/{cause(stale, f"label{n}", ("pull_request", 0))}',
                 f'PR {n} merged while labelled {self.dnm_label!r} (CI cache: labels={sorted(getattr(cpr, "labels", ()))})',
             ))
         bad = {c: s for c, s in self.statuses.get(head, {}).items() if s != 'success'}
-        if bad:
+        if bad and not excused(f'status:{head}'):
             cached = {k: v.value for k, v in getattr(cpr, 'last_known_github_status', {}).items()} if cpr is not None else {}
             # out of date only if a status changed after the CI last read the rollup of this head; a cache that
             # is wrong although the CI has read the rollup since the last change is the CI's own doing
-            stale = bool(cached) and all(v == 'success' for v in cached.values()) and head in self.unpolled
+            stale = bool(cached) and all(v == 'success' for v in cached.values())
             found.append((
-                f'check-not-success/{cause(stale)}',
+                f'check-not-success/{cause(stale, f"status:{head}")}',
                 f'PR {n} merged while checks on its head {head} are {bad} (CI cache: {cached}; '
-                f'{"status changed since the CI last read the rollup" if head in self.unpolled else "the CI has read the rollup since the last status change"})',
+                f'{"status changed since the CI last read the rollup" if f"status:{head}" in self.dirty else "the CI has read the rollup since the last status change"})',
             ))
         mine = [b for b in self.batches if b['attributes'].get('test') == '1' and b['attributes'].get('source_sha') == head]
         on_target = [b for b in mine if b['attributes'].get('target_sha') == target]
@@ -358,12 +399,14 @@ class World:
                     f'PR {n} merged although its test batch for ({head} onto {target}) is '
                     f'{[(b["id"], b["state"]) for b in on_target]}',
                 ))
+            elif mine and excused('target'):
+                pass
             elif mine:
                 # the CI cannot be unaware of a target move that is its own merge
                 stale = ci_target != target and self.last_target_change != 'merge'
                 tested = sorted({(b['attributes'].get('target_sha'), b['state']) for b in mine})
                 found.append((
-                    f'target-not-current/{cause(stale, ("push", 0))}',
+                    f'target-not-current/{cause(stale, "target", ("push", 0))}',
                     f'PR {n} (head {head}) merged into {BRANCH}@{target} but its test batches ran against {tested} '
                     f'(CI cache: target sha={ci_target!r})',
                 ))
@@ -371,7 +414,7 @@ class World:
                     prev = self.merges[-1]
                     if any(b['attributes'].get('target_sha') == prev['target_before'] and b['state'] == 'success' for b in mine):
                         found.append((
-                            f'two-merges-one-target-update/{cause(stale, ("push", 0))}',
+                            f'two-merges-one-target-update/{cause(stale, "target", ("push", 0))}',
                             f'PR {prev["pr"]} and PR {n} were both merged on the strength of tests against '
                             f'{BRANCH}@{prev["target_before"]}',
                         ))
@@ -382,7 +425,7 @@ class World:
                     f'(batches: {[(b["id"], b["attributes"].get("source_sha"), b["attributes"].get("target_sha")) for b in self.batches]})',
                 ))
         self.count('merges')
-        if not found:
+        if not found and not self.counters.get('clauses_excused_change_inside_merging_pass'):
             self.count('merges_clean')
         self.violations.extend(found)
 
@@ -400,21 +443,35 @@ class FakeGH:
 
         return gidgethub.BadRequest(http.HTTPStatus(code), msg)
 
+    async def _request_point(self):
+        """Called when a GitHub request of the running CI pass is received, before it is answered: k requests have
+        been answered so far.  An armed window (k, change) fires here: the world changes and the webhook announcing
+        it reaches the CI's real handler while the pass is suspended on this request."""
+        w = self.w
+        if w.window is not None and w.window[0] == w.req:
+            await _CUR._fire_window()
+        w.req += 1
+
     async def getitem(self, url):
         if url == f'/repos/{REPO_SS}/git/refs/heads/{BRANCH}':
+            await self._request_point()
             self.w.count('gh_polls')
+            self.w.mark_read('target')
             return {'ref': f'refs/heads/{BRANCH}', 'object': {'sha': self.w.target, 'type': 'commit'}}
         raise HarnessError(f'fake GitHub: unexpected GET {url}')
 
     async def getiter(self, url):
         if url != f'/repos/{REPO_SS}/pulls?state=open&base={BRANCH}':
             raise HarnessError(f'fake GitHub: unexpected GET (iter) {url}')
-        for n in sorted(self.w.prs):
-            if self.w.prs[n]['state'] == 'open':
-                yield self.w.pr_json(n)
+        await self._request_point()
+        page = [self.w.pr_json(n) for n in sorted(self.w.prs) if self.w.prs[n]['state'] == 'open']
+        self.w.mark_read(*[f'{f}{n}' for n in self.w.prs for f in ('label', 'head')])
+        for x in page:
+            yield x
 
     async def post(self, url, *, data):
         w = self.w
+        await self._request_point()
         if url == '/graphql':
             return self._graphql(data['query'])
         m = re.fullmatch(rf'/repos/{REPO_SS}/statuses/(\w+)', url)
@@ -443,8 +500,7 @@ class FakeGH:
         p = w.prs[n]
         ctxs = list(w.statuses.get(p['head'], {}).items())
         if after == 0:
-            if p['head'] in w.unpolled:
-                w.unpolled.remove(p['head'])
+            w.mark_read(f'review{n}', f'status:{p["head"]}')
         else:
             w.count('graphql_pages_beyond_first')
         if not ctxs:
@@ -475,6 +531,7 @@ class FakeGH:
         m = re.fullmatch(rf'/repos/{REPO_SS}/pulls/(\d+)/merge', url)
         if not m:
             raise HarnessError(f'fake GitHub: unexpected PUT {url}')
+        await self._request_point()
         n = int(m.group(1))
         p = w.prs.get(n)
         w.count('merge_puts')
@@ -714,12 +771,11 @@ class Sys:
         self.wb = g.WatchedBranch(0, g.FQBranch(g.Repo(OWNER, NAME), BRANCH), False, True, [])
         w.ci = self.wb
 
-    WORLD_EVENTS = frozenset(('push', 'target', 'review', 'label', 'ext', 'extk', 'batch'))
+    WORLD_EVENTS = frozenset(('push', 'target', 'review', 'label', 'ext', 'extk', 'batch'))  # never run the CI
 
     # -- events ----------------------------------------------------------------------------
-    def enabled(self, all_knobs=False):
-        """Events the search may take here.  all_knobs=True ignores the configuration's restriction of the
-        alphabet (root histories may use any event that is possible in the world)."""
+    def world_changes(self, all_knobs=False, kinds=None):
+        """World changes possible here (pushes, reviews, labels, status flips, target moves)."""
         w = self.world
         ev = []
         knobs = DEFAULT_CFG['knobs'] if all_knobs else w.cfg['knobs']
@@ -742,15 +798,40 @@ class Sys:
                         ev.append(('ext', n, c) if k == 0 else ('extk', n, k, c))
         if 'target' in knobs and w.ext_moves < w.cfg['target_moves']:
             ev.append(('target',))
+        if kinds is not None:
+            ev = [e for e in ev if e[0] in kinds or (e[0] == 'extk' and 'ext' in kinds)]
+        return ev
+
+    def ci_steps(self):
+        """Deliveries and the periodic update: the events that run a CI pass."""
+        w = self.world
+        ev = [('hook', kind, n) for kind, n in w.hooks]
+        if w.callbacks:
+            ev.append(('callback',))
+        ev.append(('tick',))
+        return ev
+
+    def enabled(self, all_knobs=False):
+        """Events the search may take here.  all_knobs=True ignores the configuration's restriction of the
+        alphabet (root histories may use any event that is possible in the world)."""
+        w = self.world
+        ev = self.world_changes(all_knobs)
         for b in w.batches:
             if b['state'] == 'running':
                 ev.append(('batch', b['id'], 's'))
                 ev.append(('batch', b['id'], 'f'))
-        for kind, n in w.hooks:
-            ev.append(('hook', kind, n))
-        if w.callbacks:
-            ev.append(('callback',))
-        ev.append(('tick',))
+        steps = self.ci_steps()
+        ev.extend(steps)
+        win = w.cfg['windows']
+        if win:
+            changes = self.world_changes(True, kinds=win['changes'])
+            for base in steps:
+                if base[0] == 'callback' or (base[0] == 'hook' and 'hook' not in win['bases']) or (
+                        base[0] == 'tick' and 'tick' not in win['bases']):
+                    continue  # a batch-callback pass makes no GitHub read
+                for k in win['ks']:
+                    for ch in changes:
+                        ev.append(('win', k, base, ch))
         return ev
 
     def app(self):
@@ -803,40 +884,75 @@ class Sys:
                 raise HarnessError(f'_start_build failed inside the harness: {pr.batch.exception!r}')
 
     def apply(self, ev):
-        """Execute one world event.  Returns (violations, counters, merged_pr_numbers)."""
-        import ci.ci as c
-        from gidgethub import sansio
-
+        """Execute one event.  Returns (violations, counters, merged_pr_numbers)."""
         w = self.world
         w.violations, w.counters, w.merged_now, w.checkouts = [], {}, [], []
+        w.window, w.req, w.changed_in_pass = None, 0, []
+        ev = _tup(ev)
+        if ev[0] == 'win':
+            _, k, base, change = ev
+            if base not in self.ci_steps() or base[0] == 'callback' or change not in self.world_changes(True):
+                raise HarnessError(f'event {ev} is not enabled here')
+            w.window = (k, change)
+            self._do(base)
+            if w.window is not None:
+                w.count('windows_not_reached')  # the pass made fewer than k GitHub requests: same as the plain pass
+                w.window = None
+        else:
+            if ev not in self.enabled(all_knobs=True):
+                raise HarnessError(f'event {ev} is not enabled here')
+            self._do(ev)
+        if w.cfg['prompt_hooks']:
+            # GitHub webhooks arrive at once: part of the same atomic transition (also those caused by a merge)
+            for _ in range(20):
+                if not w.hooks:
+                    break
+                w.req, w.changed_in_pass = 0, []
+                self._deliver_hook(w.hooks[0])
+            else:
+                raise HarnessError('webhook deliveries do not settle')
+        return list(w.violations), dict(w.counters), list(w.merged_now)
+
+    def _world_change(self, ev):
+        """Mutate the world's truth.  Returns (facts changed, webhook GitHub sends for it | None)."""
+        w = self.world
         kind = ev[0]
-        if tuple(ev) not in self.enabled(all_knobs=True):
-            raise HarnessError(f'event {ev} is not enabled here')
         if kind == 'push':
             p = w.prs[ev[1]]
             a, b = PR_SHAS[ev[1]]
             p['head'] = b if p['head'] == a else a
-            w.add_hook('pull_request', ev[1])
-        elif kind == 'target':
+            return [f'head{ev[1]}'], ('pull_request', ev[1])
+        if kind == 'target':
             w.ext_moves += 1
             w.target = f'T{w.ext_moves}'
             w.last_target_change = 'external'
-            w.add_hook('push', 0)
-        elif kind == 'review':
+            return ['target'], ('push', 0)
+        if kind == 'review':
             w.prs[ev[1]]['review'] = REVIEW_CODES[ev[2]]
-            w.add_hook('pull_request_review', ev[1])
-        elif kind == 'label':
+            return [f'review{ev[1]}'], ('pull_request_review', ev[1])
+        if kind == 'label':
             p = w.prs[ev[1]]
             if ev[2]:
                 p['labels'] = sorted(p['labels'] + [w.dnm_label])
             else:
                 p['labels'] = [x for x in p['labels'] if x != w.dnm_label]
-            w.add_hook('pull_request', ev[1])
-        elif kind in ('ext', 'extk'):
+            return [f'label{ev[1]}'], ('pull_request', ev[1])
+        if kind in ('ext', 'extk'):
             sha = w.prs[ev[1]]['head']
             w.set_status(sha, ext_name(ev[2] if kind == 'extk' else 0), STATUS_CODES[ev[-1]])
-            if sha not in w.unpolled:
-                w.unpolled = sorted(w.unpolled + [sha])
+            return [f'status:{sha}'], None  # the CI registers no status / check_run handler
+        raise HarnessError(f'not a world change: {ev}')
+
+    def _do(self, ev):
+        import ci.ci as c
+
+        w = self.world
+        kind = ev[0]
+        if kind in ('push', 'target', 'review', 'label', 'ext', 'extk'):
+            facts, hook = self._world_change(ev)
+            w.mark_changed(*facts)
+            if hook:
+                w.add_hook(*hook)
         elif kind == 'batch':
             b = next(b for b in w.batches if b['id'] == ev[1])
             b['state'] = STATUS_CODES[ev[2]]
@@ -854,26 +970,17 @@ class Sys:
             self._run_ci(c.batch_callback_handler(_Request(self.app(), body)))
         elif kind == 'tick':
             w.count('ticks')
+            w.mark_notified()  # update() itself sets github_changed
             self._run_ci(self.wb.update(self.db, self.batch_client, self.gh, False))
         else:
             raise HarnessError(f'unknown event {ev}')
-        if w.cfg['prompt_hooks']:
-            # GitHub webhooks arrive at once: part of the same atomic transition (also those caused by a merge)
-            for _ in range(20):
-                if not w.hooks:
-                    break
-                self._deliver_hook(w.hooks[0])
-            else:
-                raise HarnessError('webhook deliveries do not settle')
-        return list(w.violations), dict(w.counters), list(w.merged_now)
 
-    def _deliver_hook(self, hook):
-        import ci.ci as c
+    def _hook_event(self, hook):
+        """The webhook as the real router receives it; notes that the CI has now been told."""
         from gidgethub import sansio
 
         w = self.world
         kind, num = hook
-        w.hooks.remove(hook)
         if kind == 'push':
             data = {'ref': f'refs/heads/{BRANCH}', 'after': w.target, 'repository': w.repo_json()}
         else:
@@ -882,7 +989,36 @@ class Sys:
         event = sansio.Event(data, event=kind, delivery_id='d')
         event.app = self.app()
         w.count(f'webhooks_{kind}')
-        self._run_ci(c.gh_router.dispatch(event))
+        if kind != 'pull_request_review' or num in self.wb.prs:
+            w.mark_notified()  # the handler reaches notify_github_changed: the CI must re-read before it merges
+        return event
+
+    def _deliver_hook(self, hook):
+        import ci.ci as c
+
+        self.world.hooks.remove(hook)
+        self._run_ci(c.gh_router.dispatch(self._hook_event(hook)))
+
+    async def _fire_window(self):
+        """Inside a running CI pass, while it is suspended on a GitHub request: the world changes and the webhook
+        announcing the change goes through the real router / handler / notify_github_changed at once."""
+        import ci.ci as c
+
+        w = self.world
+        _, change = w.window
+        w.window = None
+        if change not in self.world_changes(True):
+            w.count('window_change_no_longer_possible')
+            return
+        facts, hook = self._world_change(change)
+        w.mark_changed(*facts)
+        w.changed_in_pass.extend(facts)
+        w.count('windows_fired')
+        if hook:
+            hook = (hook[0], 0 if hook[0] == 'pull_request' else hook[1])
+            await c.gh_router.dispatch(self._hook_event(hook))
+            if not self.wb.github_changed and (hook[0] != 'pull_request_review' or hook[1] in self.wb.prs):
+                w.count('midpass_notification_flag_not_set')
 
     # -- canonical form --------------------------------------------------------------------
     def canon(self):
@@ -957,11 +1093,20 @@ def enc(ev):
         return 'c'
     if k == 'tick':
         return 't'
+    if k == 'win':
+        return f'w{ev[1]}:{enc(ev[2])}:{enc(ev[3])}'
     raise HarnessError(f'cannot encode {ev}')
+
+
+def _tup(x):
+    return tuple(_tup(v) for v in x) if isinstance(x, (list, tuple)) else x
 
 
 def dec(tok):
     k, rest = tok[0], tok[1:]
+    if k == 'w':
+        a, b, c = rest.split(':')
+        return ('win', int(a), dec(b), dec(c))
     if k == 'p':
         return ('push', int(rest))
     if k == 'T':
@@ -1001,5 +1146,5 @@ def replay_history(history, enforce=False, cfg=None):
     if isinstance(history, str):
         history = dec_history(history)
     for ev in history:
-        results.append(s.apply(tuple(ev)))
+        results.append(s.apply(_tup(ev)))
     return s, results
